@@ -71,6 +71,10 @@ def jobs(tier):
                 out.append(("gvc.props.c01", "ob_covariant", dict(D=D, cfg=c, gs=gs[i:i + 4])))
     for c in [dict(k=0, kf=0, M=[3, 3], rdil=1), dict(k=1, kf=1, M=[3, 1], rdil=2), dict(k=1, kf=0, M=[3, 3], rdil=1)]:
         out.append(("gvc.props.c01", "ob_translation", dict(D=2, cfg=c)))
+    # dependency: the statement's "g." is the library's group action; the obligations above use the SPECIFIED action
+    # (act_spec), so the real times_group_element entry points must equal it (owned by C02)
+    from .common import dep_jobs
+    out += dep_jobs("gvc.props.c02", lambda fn, kw: fn in ("ob_array", "ob_entry") and kw["D"] >= 2)
     return out
 
 
